@@ -3,9 +3,11 @@ package main
 import (
 	"context"
 	"fmt"
+	"sync"
 
 	"github.com/smart-core-os/sc-api/go/traits"
 	"google.golang.org/protobuf/proto"
+	"google.golang.org/protobuf/types/known/fieldmaskpb"
 
 	"github.com/smart-core-os/sc-golang/internal/verif/vk"
 	"github.com/smart-core-os/sc-golang/pkg/resource"
@@ -126,3 +128,108 @@ func concurrentSubscribe(r *vk.Run) {
 }
 
 var _ = proto.Clone
+
+// sharedChangeEvents: two backpressured subscribers on one collection, one of them with an include predicate (and,
+// in other cases, a read mask). An update that moves the item across the predicate makes the filtering subscriber
+// see an ADD or REMOVE; the plain subscriber must still be given, and keep, the change exactly as the writer made
+// it: an UPDATE carrying both values. Checked for both registration orders.
+func sharedChangeEvents(r *vk.Run) {
+	n := r.Pick(60, 3000)
+	for i := 0; i < n; i++ {
+		if !r.Mine(i) {
+			continue
+		}
+		rng := r.CaseRand("c07-shared", i)
+		from := int32(rng.Range(1, 2))
+		col := resource.NewCollection(resource.WithInitialRecord("a", &tat{DefaultInt32: from, DefaultString: "v0"}))
+		ctx, cancel := context.WithCancel(context.Background())
+		type rec struct {
+			e        *resource.CollectionChange
+			typ      string
+			old, new proto.Message
+		}
+		var mu sync.Mutex
+		var plain []rec
+		odd := func(_ string, m proto.Message) bool { t, _ := m.(*tat); return t != nil && t.DefaultInt32%2 == 1 }
+		openPlain := func() {
+			ch := col.Pull(ctx, resource.WithBackpressure(true), resource.WithUpdatesOnly(true))
+			go func() {
+				for e := range ch {
+					mu.Lock()
+					plain = append(plain, rec{e, e.ChangeType.String(), e.OldValue, e.NewValue})
+					mu.Unlock()
+				}
+			}()
+		}
+		openFiltering := func() {
+			ro := []resource.ReadOption{resource.WithBackpressure(true), resource.WithInclude(odd)}
+			if rng.Bool() {
+				ro = append(ro, resource.WithReadMask(&fieldmaskpb.FieldMask{Paths: []string{"default_int32"}}))
+			}
+			ch := col.Pull(ctx, ro...)
+			go func() {
+				for range ch {
+				}
+			}()
+		}
+		first := rng.Bool()
+		if first {
+			openPlain()
+			openFiltering()
+		} else {
+			openFiltering()
+			openPlain()
+		}
+		if _, ok := r.MustQuiesce("c07-shared-open"); !ok {
+			cancel()
+			return
+		}
+		steps := rng.Range(1, 4)
+		cur := from
+		type wrote struct{ old, new int32 }
+		var log []wrote
+		for s := 0; s < steps; s++ {
+			next := cur%2 + 1 // 1 <-> 2: every update crosses the predicate
+			if rng.Chance(1, 4) {
+				next = cur
+			}
+			if _, err := col.Update("a", &tat{DefaultInt32: next, DefaultString: fmt.Sprintf("v%d", s+1)}); err != nil {
+				break
+			}
+			log = append(log, wrote{cur, next})
+			cur = next
+			if _, ok := r.MustQuiesce("c07-shared-write"); !ok {
+				cancel()
+				return
+			}
+		}
+		r.Eval(1)
+		r.Count("shared-change-scenarios", 1)
+		r.Distinct(fmt.Sprintf("shared|%v|%d|%v", first, from, log))
+		mu.Lock()
+		bad := ""
+		if len(plain) != len(log) {
+			bad = fmt.Sprintf("the plain subscriber received %d events for %d updates", len(plain), len(log))
+		}
+		for k := 0; bad == "" && k < len(plain); k++ {
+			p, w := plain[k], log[k]
+			o, _ := p.e.OldValue.(*tat)
+			nw, _ := p.e.NewValue.(*tat)
+			switch {
+			case p.typ != "UPDATE" || p.old == nil || p.new == nil:
+				bad = fmt.Sprintf("event #%d arrived as {%s old=%v new=%v}, the write was an UPDATE %d -> %d", k, p.typ, p.old != nil, p.new != nil, w.old, w.new)
+			case p.e.ChangeType.String() != p.typ || p.e.OldValue != p.old || p.e.NewValue != p.new:
+				bad = fmt.Sprintf("event #%d arrived as {%s old=%v new=%v} and now reads {%s old=%v new=%v}", k, p.typ, p.old != nil, p.new != nil, p.e.ChangeType, p.e.OldValue != nil, p.e.NewValue != nil)
+			case o.GetDefaultInt32() != w.old || nw.GetDefaultInt32() != w.new:
+				bad = fmt.Sprintf("event #%d carries %d -> %d, the write was %d -> %d", k, o.GetDefaultInt32(), nw.GetDefaultInt32(), w.old, w.new)
+			}
+		}
+		mu.Unlock()
+		if bad != "" {
+			r.Violation("C07/event-struct/collection.shared-with-filtering-subscriber", fmt.Sprintf("shared case %d (plain subscriber registered first: %v): %s", i, first, bad), map[string]any{"case": i})
+		}
+		cancel()
+	}
+	r.MustQuiesce("c07-shared-end")
+	r.Require("shared-change-scenarios", 20)
+}
